@@ -372,6 +372,20 @@ struct SrvEngine : public Engine
    std::string step2(const std::vector<std::string> & t)
    {
       const std::string & op = t[0];
+      if ((op == "wping")&&(t.size() == 2))
+      {
+         // C07: whatever the other clients sent, a second client's ping is answered (and the server is still alive)
+         uint64_t tag; if (!toU64(t[1], tag)) return "bad-op";
+         Client & w = cl[NSLOTS-1];
+         if (!w.attached) return "bad-op";
+         MessageRef m = GetMessageFromPool(PR_COMMAND_PING); (void) m()->AddInt32("tag", (int32)tag);
+         (void) w.gw->AddOutgoingMessage(m);
+         pumpAll();
+         const std::string want = "PONG " + u64s(tag);
+         bool got = false; for (size_t k=0; k<w.inbox.size(); k++) if (w.inbox[k] == want) got = true;
+         if (!got) oracleFail("C07: the witness session's ping (tag " + u64s(tag) + ") was not answered");
+         return got ? "pong" : "nopong";
+      }
       if (op == "pump")
       {
          pumpAll();
